@@ -60,7 +60,13 @@ def gen_cases(ctx, rng):
         if rng.chance(1, 2):
             changed = json.loads(json.dumps(entries))
             j = rng.range(0, len(changed) - 1)
-            if rng.chance(1, 2):
+            if rng.chance(1, 3) and not meta[j][1]:
+                # same name, port and upstream, another bind address (concrete <-> wildcard): differs, must be replaced
+                pj = ports[j]
+                changed[j]["listen"] = spell("canon", pj) if meta[j][0] == "port" else spell("port", pj)
+                info["differing_listen"] = "127.0.0.1:%d" % pj if meta[j][0] == "port" else "[::]:%d" % pj
+                stats["differing_bind_address"] = stats.get("differing_bind_address", 0) + 1
+            elif rng.chance(1, 2):
                 changed[j]["upstream"] = "other:9"
             else:
                 changed[j]["listen"] = spell("canon", ports[2] if len(changed) < 3 else ports[j]) if len(changed) < 3 else changed[j]["listen"]
@@ -112,7 +118,11 @@ def oracle(case, resps):
         if resps[k]["status"] == 201:
             after = {p["name"]: p for p in A.canon_payload(resps[k]["proxies"])[1]}
             p = after.get(info["differing_name"])
-            if p is None or p["toxics"] or p["upstream"] != "other:9":
+            if "differing_listen" in info:
+                if p is None or p["toxics"] or (p["enabled"] and p["listen"] != info["differing_listen"]):
+                    return (k, "an entry with another bind address (same port) did not replace the old proxy: it now listens on %s with %d toxics, expected %s and none"
+                            % (p and p["listen"], len(p["toxics"]) if p else 0, info["differing_listen"]))
+            elif p is None or p["toxics"] or p["upstream"] != "other:9":
                 return (k, "a differing entry did not replace the old proxy by a fresh one")
     if "reset_at" in info and info["reset_at"] < len(resps):
         k = info["reset_at"]
